@@ -170,6 +170,13 @@ func c06(args []string) error {
 					run.org.Hosts[h], k, hops, run.org.Hosts[h], k, hops, run.org.Hosts[h], k, hops)})
 			run.org.Route(h, fmt.Sprintf("/jhub%d/f%d.png", k, hops), okImage(k*10+hops))
 			add("jhub", jhub, hops)
+			// ... and one in which the extractors find outlinks but not a single asset
+			jonly := fmt.Sprintf("/jhub%d/only%d.json", k, hops)
+			h = len(seeds) % 2
+			run.org.Route(h, jonly, origin.Resp{Status: 200, Headers: map[string]string{"Content-Type": "application/json"},
+				Body: fmt.Sprintf(`{"next":"http://%s/jout/%d/%d/onlyplain","more":{"u":"http://%s/jout/%d/%d/onlydcmatch7"}}`,
+					run.org.Hosts[h], k, hops, run.org.Hosts[h], k, hops)})
+			add("jhub-noasset", jonly, hops)
 		}
 	}
 	if err := run.Preload(seeds); err != nil {
